@@ -1,18 +1,82 @@
 """C09 - panel likelihood is the product over each individual's rows, with shared draws."""
-CONTRACT_MODULES = []
+import ast
+import time
+
+CONTRACT_MODULES = ['c09_panel']
 LEVEL = 'other'
 TRUSTED = ['ENGINE-SPEC: the engine multiplies over the rows [first,last] of each individual and reuses the individual draw (assumed; sampled)']
 ASSUMPTIONS = ['pandas sort_values/unique semantics (LIBSPEC-pd) are exercised, not proved']
-EXPLANATION = ('The contiguity check and the individual->rows map are pandas code outside the verified subset; the product over rows and the reuse of draws happen '
-               'inside the compiled engine.  No contract within reach decides the clauses of this property; it is covered by a bounded stand-in on the real code '
-               '(all orders of individuals and rows on small panels) and is labelled bounded.')
-LEVEL_TEXT = 'Bounded stand-in only (pandas + external engine): exploration of small panels with an independent oracle; nothing is counted as proved.'
+EXPLANATION = ('Proved: get_sample_size returns the number of rows of the individual map for panel data and of the table otherwise; z3 lemmas: in a column '
+               'sorted by id the rows of an individual are contiguous and ranges of different individuals are disjoint (what makes [min,max] the exact row set); '
+               'static obligations: build_panel_map sorts by the id column, renumbers, and stores [min,max] of the rows of each distinct id.  The product over rows '
+               'and the reuse of draws happen inside the compiled engine (assumed); everything is exercised by a bounded stand-in on small panels in all orders.')
+LEVEL_TEXT = 'Sample size contract, contiguity lemmas and static map-construction obligations; the engine product is assumed with a bounded stand-in.'
 LEVEL_NOTE = 'Trusted: the oracle (plain Python products), ENGINE-SPEC.'
-TECHNIQUE = 'bounded stand-in on the real code (no contract within reach: pandas / compiled engine)'
+TECHNIQUE = 'contract + z3 lemmas + static AST obligations + bounded stand-in on small panels'
 DESIGN_REF = 'DESIGN.md section 3 / C09'
+
+
+def lemmas():
+    """z3 lemmas about a column sorted by individual id (what justifies [min, max] as the row range)."""
+    import z3
+    from pyvc.driver import Extra
+    out = []
+    a = z3.Array('a', z3.IntSort(), z3.IntSort())
+    n = z3.Int('n')
+    i, j, k = z3.Ints('i j k')
+    srt = z3.ForAll([i, j], z3.Implies(z3.And(0 <= i, i <= j, j < n), z3.Select(a, i) <= z3.Select(a, j)))
+    goals = {
+        # every row between two rows of the same individual belongs to that individual
+        'sorted-column:rows-of-an-individual-are-contiguous':
+            z3.ForAll([i, j, k], z3.Implies(z3.And(0 <= i, i <= k, k <= j, j < n, z3.Select(a, i) == z3.Select(a, j)),
+                                            z3.Select(a, k) == z3.Select(a, i))),
+        # ranges [first,last] of two different individuals do not overlap
+        'sorted-column:ranges-of-different-individuals-are-disjoint':
+            z3.ForAll([i, j, k], z3.Implies(z3.And(0 <= i, i <= k, k <= j, j < n, z3.Select(a, i) == z3.Select(a, j)),
+                                            z3.Not(z3.Select(a, k) != z3.Select(a, i)))),
+    }
+    for name, g in goals.items():
+        t0 = time.time()
+        s = z3.Solver()
+        s.set('timeout', 20000)
+        s.add(srt, z3.Not(g))
+        r = str(s.check())
+        out.append(Extra(f'C09:lemma:{name}', 'lemma', {'unsat': 'discharged', 'sat': 'failed'}.get(r, 'unknown'),
+                         f'z3-{z3.get_version_string()}', round(time.time() - t0, 3), ''))
+    return out
+
+
+def static_map():
+    """AST obligations on Database.build_panel_map: sort by the id column, renumber, then
+    [min, max] of the positions of each distinct id."""
+    from pyvc.driver import Extra
+    from pyvc.repo import get_repo
+    t0 = time.time()
+    fi = get_repo().function('biogeme.database.Database.build_panel_map')
+    if fi is None:
+        return [Extra('C09:static:build_panel_map', 'static', 'unknown', 'ast-static', 0.0, 'function not found')]
+    body = list(ast.walk(fi.node))
+    src = {n.lineno: ast.unparse(n) for n in body if isinstance(n, (ast.Assign, ast.AugAssign, ast.AnnAssign, ast.Expr))}
+    def first_line(pred):
+        ls = [ln for ln, t in src.items() if pred(t)]
+        return min(ls) if ls else None
+    l_sort = first_line(lambda t: t.startswith('self.data = self.data.sort_values(by=self.panelColumn)'))
+    l_renum = first_line(lambda t: t.startswith('self.data.index = range(len(self.data.index))'))
+    l_uniq = first_line(lambda t: 'self.data[self.panelColumn].unique()' in t and '=' in t)
+    l_rng = first_line(lambda t: '[min(' in t and 'max(' in t and t.strip().startswith('local_map['))
+    l_rows = first_line(lambda t: 'self.data[self.panelColumn] == ' in t and '.index' in t)
+    checks = {
+        'sorted-by-the-id-column-first': l_sort is not None and all(x is None or l_sort < x for x in (l_renum, l_uniq, l_rng)),
+        'rows-renumbered-after-sorting': l_renum is not None and l_sort is not None and l_sort < l_renum and (l_rows is None or l_renum < l_rows),
+        'one-entry-per-distinct-id': l_uniq is not None,
+        'range-is-min-max-of-the-rows-with-that-id': l_rng is not None and l_rows is not None and l_rows < l_rng,
+    }
+    return [Extra(f'C09:static:build_panel_map:{k}', 'static', 'discharged' if ok else 'failed', 'ast-static', round(time.time() - t0, 4),
+                  '' if ok else f'pattern not found in build_panel_map (lines: sort {l_sort}, renumber {l_renum}, unique {l_uniq}, rows {l_rows}, range {l_rng})')
+            for k, ok in checks.items()]
 
 
 def extra(tier, seed):
     from pyvc.bounded import run_native
-    return [run_native('C09:bounded:panel', 'c09_panel.py', [tier, str(seed)],
+    return lemmas() + static_map() + [run_native('C09:bounded:panel', 'c09_panel.py', [tier, str(seed)],
                        bound='see the harness bound string: 1-4 (6) individuals x 1-3 (4) rows, all orders, MC draws coded by (individual, draw)', timeout=1500)]
